@@ -581,6 +581,8 @@ macro_rules | `(tactic| np_lem) => `(tactic| exact delAt_np _ _ _)
 theorem delB_np (args : List Val) : NP (delB args) := by unfold delB; np
 theorem insertAt_np (r l : Nat) (v : Val) (i : Nat) : NP (insertAt r l v i) := by unfold insertAt; np
 macro_rules | `(tactic| np_lem) => `(tactic| exact insertAt_np _ _ _ _)
+theorem appendNew_np (r l : Nat) (v : Val) : NP (appendNew r l v) := by unfold appendNew; np
+macro_rules | `(tactic| np_lem) => `(tactic| exact appendNew_np _ _ _)
 theorem addB_np (args : List Val) : NP (addB args) := by unfold addB; np
 theorem concatGo_np : ∀ (l : List Val) (cur : Val), NP (concatGo l cur) := by
   intro l; induction l with
